@@ -35,7 +35,7 @@ def group_commit(chk, tier):
 
 
 def run(tier):
-    return crashcheck.run_crash(PID, tier, TAGS, THEOREMS, IMPORTS, TARGETS, '1234', 'follow', quick=(8, 30, 28), extra=group_commit)
+    return crashcheck.run_crash(PID, tier, TAGS, THEOREMS, IMPORTS, TARGETS, '1234', 'follow', quick=(8, 30, 28), thorough=(45, 60, 50), extra=group_commit)
 
 
 def replay(path):
